@@ -126,6 +126,7 @@ static Rng g_frng;
 static unsigned g_fmask = 0;
 static unsigned g_frate[16];
 static long g_late_max_ms = 50;
+static long g_stall_max_ms = 20;
 static std::set<int> *g_fault_fds;
 static std::set<int> *g_nofault_fds;
 static bool g_fault_all_socks = false;
@@ -167,6 +168,7 @@ const char *fault_name(unsigned kind) {
     case F_EVENT_SUBSET: return "event_subset";
     case F_SPURIOUS: return "spurious_wakeup";
     case F_COND_ANY: return "cond_any_waiter";
+    case F_STALL: return "thread_stall";
   }
   return "?";
 }
@@ -179,6 +181,7 @@ void fault_scope(uint64_t fseed, unsigned mask) {
 }
 void fault_rate(unsigned kind, unsigned permille) { g_frate[kind_index(kind)] = permille; }
 void fault_late_max_ms(long ms) { g_late_max_ms = ms; }
+void fault_stall_max_ms(long ms) { g_stall_max_ms = ms > 0 ? ms : 1; }
 void fault_fd(int fd, bool on) {
   Ig ig_;
   if (on) { g_fault_fds->insert(fd); g_nofault_fds->erase(fd); }
@@ -483,6 +486,7 @@ void start(const Plan &plan) {
   g_frate[kind_index(F_EVENT_SUBSET)] = 200;
   g_frate[kind_index(F_SPURIOUS)] = 50;
   g_frate[kind_index(F_COND_ANY)] = 500;
+  g_frate[kind_index(F_STALL)] = 25;
 
   g_sched = plan.sched;
   g_srng = Rng(g_sched.seed, "schedule");
@@ -669,6 +673,15 @@ int __wrap_pthread_mutex_lock(pthread_mutex_t *m) {
     if (s.owner == -1) { s.owner = t->id; s.count = 1; }
     else if (s.owner == t->id) ++s.count;
     return __real_pthread_mutex_lock(m);
+  }
+  if (g_alive > 1 && fault(F_STALL)) {
+    // the thread loses the processor for a while right before it takes the lock
+    long ms = 1 + (long)g_frng.below((uint64_t)g_stall_max_ms);
+    trace("T%d stalls %ld ms", t->id, ms);
+    t->state = T_SLEEPING;
+    t->deadline = g_now + (int64_t)ms * 1000000;
+    reschedule();
+    t->deadline = -1;
   }
   sched_point();
   model_lock(t, m);
